@@ -30,6 +30,19 @@ class Val(object):
         self.k, self.c, self.xs = k, c, list(xs)
 
 
+class Falsy(Val):
+    """A real value that is false in a boolean context, like 0, "", [] or False."""
+    def __init__(self, c):
+        Val.__init__(self, "falsy", c)
+
+    def __bool__(self):
+        return False
+    __nonzero__ = __bool__
+
+    def __len__(self):
+        return 0
+
+
 def vrec(k, c=0, xs=(), mr=(), mg=()):
     return {"k": k, "c": c, "xs": list(xs), "mr": list(mr), "mg": [list(g) for g in mg]}
 
@@ -117,6 +130,8 @@ class Program(object):
             return Val("v", c)
         if outc == "none":
             return None
+        if outc == "falsy":
+            return Falsy(c)
         if outc == "list":
             return [Val("elem", c, [i + 1]) for i in range(self.listlen)]
         self._raise(c, outc, el)
@@ -201,7 +216,7 @@ class Program(object):
     def _apply_enabled(self):
         """The enabled switch is driven through every public way of setting it."""
         import insights
-        how = 0 if self.has_point else self.variant % 4
+        how = 0 if self.has_point else self.variant % 6
         if how == 0:
             for o in self.to_disable:
                 dr.set_enabled(o, False)
@@ -210,8 +225,20 @@ class Program(object):
                 dr.set_enabled(dr.get_name(o), False)          # by fully qualified name
         elif how == 2:
             insights.apply_configs({"configs": [{"name": dr.get_name(o), "enabled": False} for o in self.to_disable]})
+        elif how == 4:
+            # stale state from earlier use of the process: the components that must run were switched
+            # off by hand; a default of True re-enables everything, then the disabled ones are named
+            on = [o for o in self.comp.values() if not any(o is d for d in self.to_disable)]
+            for o in on:
+                dr.set_enabled(o, False)
+            insights.apply_default_enabled({"default_component_enabled": True})
+            self.replaced_enabled = True
+            insights.apply_configs({"configs": [{"name": dr.get_name(o), "enabled": False} for o in self.to_disable]})
         else:
             # everything disabled by default, the enabled ones switched on by name
+            if how == 5:
+                for o in self.comp.values():
+                    dr.is_enabled(o)       # as an earlier evaluation in this process would have done
             if self.to_disable:
                 insights.apply_default_enabled({"default_component_enabled": False})
                 self.replaced_enabled = True
@@ -332,7 +359,8 @@ class Recorder(object):
                     # engine-made exception seen only at the end of a pooled run: attribute it to its key
                     by = self.prog.cid(key)
                 out.append({"under": self.prog.cid(key), "by": by, "kind": kind, "el": el,
-                            "tb": bool(broker.tracebacks.get(ex))})
+                            # a traceback, not just any text (format_exc() outside a handler gives "NoneType: None")
+                            "tb": "Traceback (most recent call last)" in str(broker.tracebacks.get(ex) or "")})
         return out
 
     def add_typed(self, broker):
